@@ -16,6 +16,8 @@ LEVEL_TEXT = ('Static lockstep, dirty=>recompute, proposal-accounting and siblin
 
 
 def run(ctx):
+    from ..pathrules import rule_T2_publish
+    rule_T2_publish(ctx)      # a half-finished checkpoint update is never published
     from ..estimators import rule_E_shell
     rule_L1_sampler(ctx, {'shell'})
     rule_L1d_transition(ctx)
